@@ -408,7 +408,7 @@ func (vc *VC) trField(e *EField, env *specEnv, c *Clause) sval {
 	}
 	for i := 0; i < s.NumFields(); i++ {
 		f := s.Field(i)
-		if f.Name() != e.Name {
+		if recFieldName(t, i) != e.Name {
 			continue
 		}
 		ft := f.Type()
@@ -430,7 +430,7 @@ func (vc *VC) trField(e *EField, env *specEnv, c *Clause) sval {
 		inner := &EField{X: &EField{X: e.X, Name: f.Name()}, Name: e.Name}
 		if es, ok := structOf(deref(f.Type())); ok {
 			for j := 0; j < es.NumFields(); j++ {
-				if es.Field(j).Name() == e.Name {
+				if recFieldName(deref(f.Type()), j) == e.Name {
 					return vc.trField(inner, env, c)
 				}
 			}
